@@ -4,6 +4,7 @@ import (
 	"bytes"
 	"fmt"
 	"math/big"
+	"strconv"
 	"strings"
 
 	pb "github.com/xuperchain/xupercore/bcs/ledger/xledger/xldgpb"
@@ -21,10 +22,145 @@ const (
 	stDeleted = 2 // written in one block, deleted in the next
 )
 
-// the three keys of the model and the four bound letters
-var keyNames = [3]string{"a", "b", "c"}
+// maxKeys is the largest number of keys a universe names.
+const maxKeys = 6
 
-// the buckets: vb holds the backing state, vb2 is empty in the store, the
+// universe is one key alphabet of the model: the keys the calls name (and the
+// committed state holds, in bucket vb) and the bounds a scan can carry.
+//
+//	keys   ascending in byte order
+//	bounds [0] is a nil slice, [1] an empty non-nil slice, [2:] ascend in byte
+//	       order and hold every non-empty key plus one bound beyond the last key
+//
+// Universe "abc" is the plain alphabet (letters a b c, bounds a b c d). The
+// other universes hold the keys at the edges of the byte order and of the
+// bucket/key encoding ("boundary keys"): the empty key (a legal key, the
+// smallest of its bucket, raw key "vb/"), a chain of strict prefixes ("a",
+// "a\x00", "ab"), the bytes 0x00 and 0xff, and the character "/" that
+// separates bucket and key in the raw key (alone: raw key "vb//"; inside a key
+// whose first component is another key: "a/b" next to "a").
+type universe struct {
+	idx        uint8
+	name       string
+	keys       []string
+	bounds     [][]byte
+	btok       []string // how the bounds are written in a program
+	ktok       []string // how the keys are written in a program
+	quoted     bool     // keys and bounds are written as Go string literals
+	emptyIsKey bool     // "" is a key of the universe
+	nilSpelled bool     // Get / Put / Del pass the empty key as a nil slice (written nil), not as an empty one
+}
+
+func newUniverse(idx uint8, name string, quoted bool, keys []string, beyond string, nilSpelled bool) *universe {
+	u := &universe{idx: idx, name: name, keys: keys, quoted: quoted, nilSpelled: nilSpelled}
+	u.bounds = [][]byte{nil, {}}
+	u.btok = []string{"nil", `""`}
+	for _, k := range keys {
+		if k == "" {
+			u.emptyIsKey = true
+			if nilSpelled {
+				u.ktok = append(u.ktok, "nil")
+			} else {
+				u.ktok = append(u.ktok, u.show(k))
+			}
+			continue
+		}
+		u.ktok = append(u.ktok, u.show(k))
+		u.bounds = append(u.bounds, []byte(k))
+		u.btok = append(u.btok, u.show(k))
+	}
+	u.bounds = append(u.bounds, []byte(beyond))
+	u.btok = append(u.btok, u.show(beyond))
+	if len(keys) > maxKeys {
+		panic("c10: universe " + name + ": too many keys")
+	}
+	for i := 1; i < len(keys); i++ {
+		if keys[i-1] >= keys[i] {
+			panic("c10: universe " + name + ": keys do not ascend")
+		}
+	}
+	for i := 2; i < len(u.bounds); i++ {
+		if bytes.Compare(u.bounds[i-1], u.bounds[i]) >= 0 {
+			panic("c10: universe " + name + ": bounds do not ascend")
+		}
+	}
+	return u
+}
+
+// show renders a key / bound of the universe (never contains white space).
+func (u *universe) show(k string) string {
+	if u.quoted {
+		return strconv.Quote(k)
+	}
+	return k
+}
+
+func (u *universe) nBackings() int {
+	n := 1
+	for range u.keys {
+		n *= 3
+	}
+	return n
+}
+
+func (u *universe) keyIndex(k string) int { return indexOf(u.keys, k) }
+
+// keyBytes is the slice a Get / Put / Del of key k passes: []byte("") is an
+// empty non-nil slice; the empty key of a nilSpelled universe is a nil slice
+// (how an empty key arrives through the contract bridge: the wire format does
+// not keep an empty byte string). Both name the same row, raw key "vb/".
+func (u *universe) keyBytes(k int) []byte {
+	if u.nilSpelled && u.keys[k] == "" {
+		return nil
+	}
+	return []byte(u.keys[k])
+}
+
+// keyClass names what kind of boundary a key is (goes into violation keys of
+// the boundary universes, so that a defect around the empty key gets another
+// key than one around, say, the separator).
+func keyClass(k string) string {
+	switch {
+	case k == "":
+		return "empty_key"
+	case strings.Contains(k, "/"):
+		return "key_with_separator"
+	case strings.Contains(k, "\x00"):
+		return "key_with_0x00"
+	case strings.Contains(k, "\xff"):
+		return "key_with_0xff"
+	}
+	return "plain_key"
+}
+
+var (
+	uABC = newUniverse(0, "abc", false, []string{"a", "b", "c"}, "d", false)
+	// the empty key and a chain of strict prefixes through the byte 0x00
+	uEmptyPrefix = newUniverse(1, "empty_prefix", true, []string{"", "a", "a\x00", "ab"}, "b", false)
+	// the bucket/key separator (alone and after another key) and the byte 0xff
+	uSepHigh = newUniverse(2, "separator_0xff", true, []string{"/", "a", "a/b", "\xff"}, "\xff\xff", false)
+	// all boundary keys at once (thorough tier)
+	uBoundary6 = newUniverse(3, "boundary6", true, []string{"", "/", "a", "a\x00", "a/b", "\xff"}, "\xff\xff", false)
+	// the empty key passed as a nil slice
+	uNilKey = newUniverse(4, "nil_key", true, []string{"", "a", "b"}, "c", true)
+
+	universes = []*universe{uABC, uEmptyPrefix, uSepHigh, uBoundary6, uNilKey}
+)
+
+func universeByName(name string) *universe {
+	if name == "" {
+		return uABC
+	}
+	for _, u := range universes {
+		if u.name == name {
+			return u
+		}
+	}
+	return nil
+}
+
+// the buckets: vb holds the backing state, vb2 is empty in the store (its
+// name extends the name of vb: rows of one must never show in the other), the
 // transient bucket never persists.
 const (
 	bktMain      = "vb"
@@ -34,32 +170,49 @@ const (
 
 var bucketNames = [3]string{bktMain, bktEmpty, bktTransient}
 
-// backing is one assignment {absent, live, deleted}^3 to (a,b,c) in bucket vb.
-type backing [3]uint8
+// backing is one assignment {absent, live, deleted}^n to the keys of a universe in bucket vb.
+type backing struct {
+	u  *universe
+	st [maxKeys]uint8
+}
 
 func (b backing) String() string {
 	s := ""
-	for _, x := range b {
-		s += string("-LD"[x])
+	for i := range b.u.keys {
+		s += string("-LD"[b.st[i]])
 	}
 	return s
 }
 
-func (b backing) index() int { return int(b[0])*9 + int(b[1])*3 + int(b[2]) }
-
-func backingOf(i int) backing { return backing{uint8(i / 9 % 3), uint8(i / 3 % 3), uint8(i % 3)} }
-
-func parseBacking(s string) (backing, error) {
-	var b backing
-	if len(s) != 3 {
-		return b, fmt.Errorf("backing %q: want 3 letters over -LD", s)
+func (b backing) index() int {
+	x := 0
+	for i := range b.u.keys {
+		x = x*3 + int(b.st[i])
 	}
-	for i := 0; i < 3; i++ {
+	return x
+}
+
+func backingOf(u *universe, idx int) backing {
+	b := backing{u: u}
+	for i := len(u.keys) - 1; i >= 0; i-- {
+		b.st[i] = uint8(idx % 3)
+		idx /= 3
+	}
+	return b
+}
+
+func parseBacking(u *universe, s string) (backing, error) {
+	b := backing{u: u}
+	bad := fmt.Errorf("backing %q: want %d letters over -LD", s, len(u.keys))
+	if len(s) != len(u.keys) {
+		return b, bad
+	}
+	for i := range u.keys {
 		p := strings.IndexByte("-LD", s[i])
 		if p < 0 {
-			return b, fmt.Errorf("backing %q: want 3 letters over -LD", s)
+			return b, bad
 		}
-		b[i] = uint8(p)
+		b.st[i] = uint8(p)
 	}
 	return b, nil
 }
@@ -84,7 +237,7 @@ func (v version) String() string {
 type bworld struct {
 	b       backing
 	w       *world.World
-	ver     [3]version // version of vb/a, vb/b, vb/c from the transactions that were committed
+	ver     [maxKeys]version // version of every key of the universe in vb, from the transactions that were committed
 	unlock  func([]byte)
 	utxo    contract.UtxoReader
 	nBlocks int
@@ -107,6 +260,75 @@ func (l *lockingReader) SelectUtxo(from string, amount *big.Int, lock bool, excl
 	return ins, keys, total, err
 }
 
+// rawKVContract is a second harness kernel contract: the statement language of
+// $vkv splits its program at white space and cannot name the empty key, so the
+// boundary universes commit their backing state through this one. Arguments:
+// "ops" one byte per write ('p' put, 'd' delete), "k<i>" the key after one
+// filler byte (an argument that is empty does not survive the wire format),
+// "v<i>" the value of a put. It writes bucket vb in index order.
+const rawKVContract = "$c10kv"
+
+func rawKVRun(ctx contract.KContext) (*contract.Response, error) {
+	args := ctx.Args()
+	ops := args["ops"]
+	for i, o := range ops {
+		k := args[fmt.Sprintf("k%d", i)]
+		if len(k) < 1 {
+			return nil, fmt.Errorf("%s: no key %d", rawKVContract, i)
+		}
+		key := append([]byte{}, k[1:]...) // empty key: an empty slice, not nil
+		var err error
+		switch o {
+		case 'p':
+			err = ctx.Put(bktMain, key, args[fmt.Sprintf("v%d", i)])
+		case 'd':
+			err = ctx.Del(bktMain, key)
+		default:
+			err = fmt.Errorf("%s: bad op %q", rawKVContract, o)
+		}
+		if err != nil {
+			return nil, err
+		}
+	}
+	ctx.AddResourceUsed(contract.Limits{XFee: int64(len(ops))})
+	return &contract.Response{Status: 200}, nil
+}
+
+func registerKernel(m contract.Manager) {
+	world.RegisterVKV(m)
+	m.GetKernRegistry().RegisterKernMethod(rawKVContract, "run", rawKVRun)
+}
+
+// writeRequest is the harness-contract call that puts (with liveValue) or
+// deletes the given keys of b's universe: $vkv for the plain universe (as
+// before the boundary universes existed), $c10kv for the others.
+func writeRequest(u *universe, keys []int, del bool) *protos.InvokeRequest {
+	if !u.quoted {
+		var st []string
+		for _, i := range keys {
+			if del {
+				st = append(st, "del "+u.keys[i])
+			} else {
+				st = append(st, fmt.Sprintf("put %s %s", u.keys[i], liveValue(i)))
+			}
+		}
+		return world.VKVRequest(strings.Join(st, ";"))
+	}
+	args := map[string][]byte{}
+	var ops []byte
+	for n, i := range keys {
+		args[fmt.Sprintf("k%d", n)] = append([]byte{'k'}, u.keys[i]...)
+		if del {
+			ops = append(ops, 'd')
+		} else {
+			ops = append(ops, 'p')
+			args[fmt.Sprintf("v%d", n)] = []byte(liveValue(i))
+		}
+	}
+	args["ops"] = ops
+	return &protos.InvokeRequest{ModuleName: "xkernel", ContractName: rawKVContract, MethodName: "run", Args: args}
+}
+
 // buildWorld commits real transactions so that the XModel of the node holds backing b:
 //
 //	block 1: A splits its genesis output into 10 x 100 (so a Transfer of a small
@@ -117,7 +339,8 @@ func (l *lockingReader) SelectUtxo(from string, amount *big.Int, lock bool, excl
 //
 // The calling goroutine must have called vhook.Capture.
 func buildWorld(b backing) (*bworld, error) {
-	w, err := world.New(world.DefaultConfig(), world.RegisterVKV)
+	u := b.u
+	w, err := world.New(world.DefaultConfig(), registerKernel)
 	if err != nil {
 		return nil, err
 	}
@@ -128,7 +351,7 @@ func buildWorld(b backing) (*bworld, error) {
 	block := func(tag string, txs []*pb.Transaction) error {
 		for _, t := range txs {
 			if err := w.SubmitStrict(world.CloneTx(t)); err != nil {
-				return fmt.Errorf("backing %s: tx of block %s refused: %v", b, tag, err)
+				return fmt.Errorf("universe %s backing %s: tx of block %s refused: %v", u.name, b, tag, err)
 			}
 		}
 		ts++
@@ -138,10 +361,10 @@ func buildWorld(b backing) (*bworld, error) {
 		}
 		stored := world.CloneBlock(blk)
 		if ok, st := w.Recv(blk); !ok {
-			return fmt.Errorf("backing %s: block %s refused: %s", b, tag, st)
+			return fmt.Errorf("universe %s backing %s: block %s refused: %s", u.name, b, tag, st)
 		}
 		if err := w.State.PlayForMiner(blk.Blockid); err != nil {
-			return fmt.Errorf("backing %s: play %s: %v", b, tag, err)
+			return fmt.Errorf("universe %s backing %s: play %s: %v", u.name, b, tag, err)
 		}
 		vhook.Drain()
 		parent = stored
@@ -166,13 +389,13 @@ func buildWorld(b backing) (*bworld, error) {
 	}
 	fundOuts = append(fundOuts, world.Out{To: "B", Amount: rest.String()})
 	fund := world.BuildTx(world.TxSpec{Initiator: "B", Ins: []world.In{{Tx: root, Offset: 1}}, Outs: fundOuts, Nonce: "fund"})
-	var puts, dels []string
-	for i, st := range b {
-		if st != stAbsent {
-			puts = append(puts, fmt.Sprintf("put %s %s", keyNames[i], liveValue(i)))
+	var puts, dels []int
+	for i := range u.keys {
+		if b.st[i] != stAbsent {
+			puts = append(puts, i)
 		}
-		if st == stDeleted {
-			dels = append(dels, "del "+keyNames[i])
+		if b.st[i] == stDeleted {
+			dels = append(dels, i)
 		}
 	}
 	b1 := []*pb.Transaction{split, fund}
@@ -181,13 +404,11 @@ func buildWorld(b backing) (*bworld, error) {
 		// read set: every key at its empty version; write set: the values
 		var ins []*protos.TxInputExt
 		var outs []*protos.TxOutputExt
-		for i, st := range b {
-			if st != stAbsent {
-				ins = append(ins, &protos.TxInputExt{Bucket: bktMain, Key: []byte(keyNames[i])})
-				outs = append(outs, &protos.TxOutputExt{Bucket: bktMain, Key: []byte(keyNames[i]), Value: []byte(liveValue(i))})
-			}
+		for _, i := range puts {
+			ins = append(ins, &protos.TxInputExt{Bucket: bktMain, Key: []byte(u.keys[i])})
+			outs = append(outs, &protos.TxOutputExt{Bucket: bktMain, Key: []byte(u.keys[i]), Value: []byte(liveValue(i))})
 		}
-		putTx, err = kvTx(w, "B", strings.Join(puts, ";"), world.In{Tx: fund, Offset: len(fundOuts) - 1}, "c10-put", ins, outs)
+		putTx, err = kvTx(w, "B", writeRequest(u, puts, false), world.In{Tx: fund, Offset: len(fundOuts) - 1}, "c10-put", ins, outs)
 		if err != nil {
 			return nil, err
 		}
@@ -199,19 +420,17 @@ func buildWorld(b backing) (*bworld, error) {
 	if len(dels) > 0 {
 		var ins []*protos.TxInputExt
 		var outs []*protos.TxOutputExt
-		for i, st := range b {
-			if st == stDeleted {
-				off := -1
-				for j, o := range putTx.TxOutputsExt {
-					if string(o.Key) == keyNames[i] {
-						off = j
-					}
+		for _, i := range dels {
+			off := -1
+			for j, o := range putTx.TxOutputsExt {
+				if string(o.Key) == u.keys[i] {
+					off = j
 				}
-				ins = append(ins, &protos.TxInputExt{Bucket: bktMain, Key: []byte(keyNames[i]), RefTxid: putTx.Txid, RefOffset: int32(off)})
-				outs = append(outs, &protos.TxOutputExt{Bucket: bktMain, Key: []byte(keyNames[i]), Value: []byte(delMarker)})
 			}
+			ins = append(ins, &protos.TxInputExt{Bucket: bktMain, Key: []byte(u.keys[i]), RefTxid: putTx.Txid, RefOffset: int32(off)})
+			outs = append(outs, &protos.TxOutputExt{Bucket: bktMain, Key: []byte(u.keys[i]), Value: []byte(delMarker)})
 		}
-		delTx, err = kvTx(w, "B", strings.Join(dels, ";"), world.In{Tx: putTx, Offset: len(putTx.TxOutputs) - 1}, "c10-del", ins, outs)
+		delTx, err = kvTx(w, "B", writeRequest(u, dels, true), world.In{Tx: putTx, Offset: len(putTx.TxOutputs) - 1}, "c10-del", ins, outs)
 		if err != nil {
 			return nil, err
 		}
@@ -227,40 +446,41 @@ func buildWorld(b backing) (*bworld, error) {
 				return version{txid: tx.Txid, offset: int32(i)}, nil
 			}
 		}
-		return version{}, fmt.Errorf("backing %s: key %s not among the outputs of its writer", b, k)
+		return version{}, fmt.Errorf("universe %s backing %s: key %s not among the outputs of its writer", u.name, b, u.show(k))
 	}
 	rd := w.State.CreateXMReader()
-	for i, st := range b {
+	for i, k := range u.keys {
+		st := b.st[i]
 		switch st {
 		case stLive:
-			bw.ver[i], err = find(putTx, keyNames[i])
+			bw.ver[i], err = find(putTx, k)
 		case stDeleted:
-			bw.ver[i], err = find(delTx, keyNames[i])
+			bw.ver[i], err = find(delTx, k)
 		}
 		if err != nil {
 			return nil, err
 		}
 		// fixture sanity: the store agrees with what was committed
-		vd, err := rd.Get(bktMain, []byte(keyNames[i]))
+		vd, err := rd.Get(bktMain, []byte(k))
 		if err != nil {
-			return nil, fmt.Errorf("backing %s: store Get(%s): %v", b, keyNames[i], err)
+			return nil, fmt.Errorf("universe %s backing %s: store Get(%s): %v", u.name, b, u.show(k), err)
 		}
 		if !bytes.Equal(vd.RefTxid, bw.ver[i].txid) || vd.RefOffset != bw.ver[i].offset {
-			return nil, fmt.Errorf("backing %s: store reports version %x/%d for %s, committed %s", b, vd.RefTxid, vd.RefOffset, keyNames[i], bw.ver[i])
+			return nil, fmt.Errorf("universe %s backing %s: store reports version %x/%d for %s, committed %s", u.name, b, vd.RefTxid, vd.RefOffset, u.show(k), bw.ver[i])
 		}
 		val := string(vd.GetPureData().GetValue())
 		switch st {
 		case stAbsent:
 			if vd.RefTxid != nil || val != "" {
-				return nil, fmt.Errorf("backing %s: never-written key %s has a version", b, keyNames[i])
+				return nil, fmt.Errorf("universe %s backing %s: never-written key %s has a version", u.name, b, u.show(k))
 			}
 		case stLive:
 			if val != liveValue(i) {
-				return nil, fmt.Errorf("backing %s: key %s = %q", b, keyNames[i], val)
+				return nil, fmt.Errorf("universe %s backing %s: key %s = %q", u.name, b, u.show(k), val)
 			}
 		case stDeleted:
 			if val != delMarker {
-				return nil, fmt.Errorf("backing %s: deleted key %s = %q", b, keyNames[i], val)
+				return nil, fmt.Errorf("universe %s backing %s: deleted key %s = %q", u.name, b, u.show(k), val)
 			}
 		}
 	}
@@ -275,11 +495,11 @@ func buildWorld(b backing) (*bworld, error) {
 		}
 	}
 	bw.utxo = w.State.CreateUtxoReader()
-	u, ok := bw.utxo.(interface{ UnlockKey([]byte) })
+	ur, ok := bw.utxo.(interface{ UnlockKey([]byte) })
 	if !ok {
 		return nil, fmt.Errorf("the node's UTXO reader has no UnlockKey")
 	}
-	bw.unlock = u.UnlockKey
+	bw.unlock = ur.UnlockKey
 	return bw, nil
 }
 
@@ -287,9 +507,9 @@ func buildWorld(b backing) (*bworld, error) {
 // given by the caller (not taken from a pre-execution: the fixture must not
 // depend on the sandbox under test); pre-execution only supplies the resource
 // limits of the request. The fee is paid from `in`, change returns to the initiator.
-func kvTx(w *world.World, initiator, prog string, in world.In, nonce string, ins []*protos.TxInputExt, outs []*protos.TxOutputExt) (*pb.Transaction, error) {
+func kvTx(w *world.World, initiator string, req *protos.InvokeRequest, in world.In, nonce string, ins []*protos.TxInputExt, outs []*protos.TxOutputExt) (*pb.Transaction, error) {
 	addr := world.Addr(initiator)
-	pre, err := w.PreExec([]*protos.InvokeRequest{world.VKVRequest(prog)}, addr, []string{addr})
+	pre, err := w.PreExec([]*protos.InvokeRequest{req}, addr, []string{addr})
 	if err != nil {
 		return nil, err
 	}
@@ -321,25 +541,47 @@ func (bw *bworld) release(lr *lockingReader) {
 	lr.locked = nil
 }
 
-// worldSet is the 27 backing worlds of one worker goroutine.
-type worldSet [27]*bworld
-
-func buildWorldSet() (*worldSet, error) {
-	ws := &worldSet{}
-	for i := 0; i < 27; i++ {
-		bw, err := buildWorld(backingOf(i))
-		if err != nil {
-			return nil, err
-		}
-		ws[i] = bw
-	}
-	return ws, nil
+// worldCache holds the backing worlds one worker goroutine has built: a world
+// is built when the worker first runs a program on that backing. The 27 worlds
+// of the plain universe stay for the whole run; the worlds of the other
+// universes are dropped when more than worldCacheCap of them are held.
+type worldCache struct {
+	m map[worldID]*bworld
 }
 
-func (ws *worldSet) drop() {
-	for _, bw := range ws {
-		if bw != nil {
-			bw.w.Drop()
+type worldID struct {
+	u  uint8
+	bi int
+}
+
+const worldCacheCap = 200
+
+func newWorldCache() *worldCache { return &worldCache{m: map[worldID]*bworld{}} }
+
+func (c *worldCache) get(u *universe, bi int) (*bworld, error) {
+	id := worldID{u.idx, bi}
+	if bw := c.m[id]; bw != nil {
+		return bw, nil
+	}
+	if len(c.m) >= worldCacheCap {
+		for k, bw := range c.m {
+			if k.u != uABC.idx {
+				bw.w.Drop()
+				delete(c.m, k)
+			}
 		}
+	}
+	bw, err := buildWorld(backingOf(u, bi))
+	if err != nil {
+		return nil, err
+	}
+	c.m[id] = bw
+	return bw, nil
+}
+
+func (c *worldCache) drop() {
+	for k, bw := range c.m {
+		bw.w.Drop()
+		delete(c.m, k)
 	}
 }
